@@ -94,6 +94,10 @@ func (h subHook) run(ctx sdk.Context, kind string, ident string, n int64) error 
 	case "panic":
 		panic("scripted panic")
 	case "oog":
+		// both panics the SDK's gas meters raise: limit exceeded, and the consumed counter overflowing
+		if len(h.w.calls)%2 == 0 {
+			panic(storetypes.ErrorGasOverflow{Descriptor: "scripted gas overflow"})
+		}
 		panic(storetypes.ErrorOutOfGas{Descriptor: "scripted out of gas"})
 	}
 	panic("bad outcome " + c.O)
